@@ -1045,6 +1045,40 @@ func c16Iter(si, n, brk, mode int) core.Result {
 				}
 			}
 		}
+		// the keys filter names what the traversal reports as keys (strings as they are, integers in decimal digits),
+		// and each of those names looks up an element of the container
+		if isMap && mode != 3 && len(keys) == len(vals) {
+			simple := true
+			var wantKeys []string
+			for _, k := range keys {
+				switch reflect.ValueOf(k).Kind() {
+				case reflect.String, reflect.Int, reflect.Int8, reflect.Int16, reflect.Int32, reflect.Int64, reflect.Uint, reflect.Uint8, reflect.Uint16, reflect.Uint32, reflect.Uint64:
+					wantKeys = append(wantKeys, fmt.Sprint(k))
+				default:
+					simple = false
+				}
+			}
+			if rt := reflect.Indirect(reflect.ValueOf(v)); !rt.IsValid() || rt.Kind() != reflect.Map || rt.Type().Key().Kind() == reflect.Interface {
+				simple = false // (a key of an interface-keyed map is not reachable through its spelling)
+			}
+			if simple {
+				sort.Strings(wantKeys)
+				src := "{% for k in v|keys %}{{ k }}\x1f{% endfor %}\x1e{% for k in v|keys %}{{ v[k] in vals ? 'Y' : 'N' }}{{ k in v|keys ? 'Y' : 'N' }}{% endfor %}\x1e{{ v|keys|length }}"
+				out, err, pan := tryExec(twig.New(nil), src, map[string]stick.Value{"v": v, "vals": vals})
+				if pan != "" || err != nil {
+					return core.Violation("visit", fmt.Sprintf("the keys of %s and the elements under them: %v %s", desc, err, pan))
+				}
+				parts := strings.Split(out, "\x1e")
+				got := strings.Split(strings.TrimSuffix(parts[0], "\x1f"), "\x1f")
+				if len(keys) == 0 {
+					got = nil
+				}
+				sort.Strings(got)
+				if !reflect.DeepEqual(got, wantKeys) || parts[1] != strings.Repeat("YY", len(keys)) || parts[2] != itoa(len(keys)) {
+					return core.Violation("visit", fmt.Sprintf("v|keys with v = %s lists %q (want %q); looking each up in v and in v|keys gives %q (want all Y); v|keys|length is %s", desc, got, wantKeys, parts[1], parts[2]))
+				}
+			}
+		}
 		// ... and so do the template operators 'in' / 'not in': for every element, every key and an absent value as the
 		// needle they give what Contains gives (core and twig environments)
 		needles := append(append([]stick.Value{}, vals...), "absent-element")
@@ -1319,9 +1353,12 @@ func c16Levels(tier string) []core.Level {
 				}
 			}
 		}},
-		{Name: "templates: {{ c[k] }} for every container x key; 6 templates whose method calls take method calls as arguments (in loops, repeated, as macro arguments)", Gen: func(emit func(core.Case)) {
+		{Name: "templates: {{ c[k] }} for every container x key; 6 templates whose method calls take method calls as arguments (in loops, repeated, as macro arguments); 9 containers whose elements Go cannot compare with == (slices, maps, functions, structs holding slices): containment is total and finds each element", Gen: func(emit func(core.Case)) {
 			for f := 0; f < 11; f++ {
 				emit(core.Case{Fam: "nested", N: []int{f}})
+			}
+			for k := 0; k < 9; k++ {
+				emit(core.Case{Fam: "uncomparable", N: []int{k}})
 			}
 			nc, nk := len(c16Containers()), len(c16Keys())
 			for c := 0; c < nc; c++ {
@@ -1333,6 +1370,57 @@ func c16Levels(tier string) []core.Level {
 	}
 }
 
+// c16Uncomparable: containers whose elements are themselves slices, maps, functions or structs holding such (values Go
+// cannot compare with ==): containment is total and finds every element the traversal visits, in the API and in templates
+type c16Bag struct {
+	Tags []string
+	N    int
+}
+
+func c16Uncomparable(k int) core.Result {
+	fn := func() {}
+	carriers := []stick.Value{
+		[][]string{{"a"}, {"b", "c"}},
+		[]map[string]int{{"a": 1}, {"b": 2}},
+		[]stick.Value{[]stick.Value{1}, []stick.Value{2}},
+		[]stick.Value{map[string]stick.Value{"a": 1}},
+		[]c16Bag{{Tags: []string{"x"}, N: 1}, {Tags: nil, N: 2}},
+		[]func(){fn},
+		map[string][]int{"p": {1, 2}, "q": {3}},
+		[]interface{}{[]int{1}, map[int]int{1: 1}, c16Bag{Tags: []string{"y"}}, fn, "s", nil},
+		[1][]byte{[]byte("ab")},
+	}
+	v := carriers[k]
+	steps, _, ierr, ipan := tryIterate(v, -1, -1)
+	if ipan != "" || ierr != nil {
+		return core.Violation("visit", fmt.Sprintf("Iterate over %#v: %v %s", v, ierr, ipan))
+	}
+	for _, st := range steps {
+		var ok bool
+		var cerr error
+		pan := ""
+		func() {
+			defer func() {
+				if p := recover(); p != nil {
+					pan = panicInfo(p)
+				}
+			}()
+			ok, cerr = stick.Contains(v, st.v)
+		}()
+		if pan != "" || cerr != nil || !ok {
+			return core.Violation("contains", fmt.Sprintf("Contains(%T %v, its element %T %v) = %v, %v %s", v, v, st.v, st.v, ok, cerr, pan))
+		}
+	}
+	for ei, env := range []*stick.Env{stick.New(nil), twig.New(nil)} {
+		src := "{% for e in v %}{{ e in v ? 'Y' : 'N' }}{{ e not in v ? 'Y' : 'N' }}{% endfor %}|{{ [2] in [[1], [2]] ? 'Y' : 'N' }}{{ {'a': 1} not in [{'a': 1}] ? 'Y' : 'N' }}{{ [] in [[]] ? 'Y' : 'N' }}"
+		out, err, pan := tryExec(env, src, map[string]stick.Value{"v": v})
+		if want := strings.Repeat("YN", len(steps)) + "|YNY"; pan != "" || err != nil || out != want {
+			return core.Violation("contains", fmt.Sprintf("%q with v = %T %v (environment %d) renders %q (%v %s), want %q", src, v, v, ei, out, err, pan, want))
+		}
+	}
+	return core.Okay(true, itoa(len(steps)))
+}
+
 func c16Run(c core.Case) core.Result {
 	switch c.Fam {
 	case "attr":
@@ -1341,6 +1429,8 @@ func c16Run(c core.Case) core.Result {
 		return c16Iter(c.N[0], c.N[1], c.N[2], c.N[3])
 	case "nested":
 		return c16Nested(c.N[0])
+	case "uncomparable":
+		return c16Uncomparable(c.N[0])
 	case "tpl":
 		return c16Tpl(c.N[0], c.N[1])
 	case "len":
